@@ -394,6 +394,52 @@ func vpC04StrHoleT(n int, special bool, nterms int) {
 	vpReach("end")
 }
 
+// FIXED: string contents longer than the symbolic holes reach - separators, astral characters as raw
+// bytes and as surrogate escapes, a lone surrogate, control escapes, an escaped solidus - at every term,
+// in every family; what is decoded is then inspected, compared, formatted and re-encoded
+var vpC04FixedContents = []string{`a b`, `a\xe2\x80\xa8b`, ` `, `😀`, `\xf0\x9f\x98\x80`, `\ud800x`, `\u0000\u001f`, `\/\b\f`, `\x7f`, `é\xc3\xa9`}
+
+func vpC04Unhex(s string) []byte {
+	// \xNN in the table stands for the raw byte (the other escapes stay as written: they are JSON's)
+	var out []byte
+	for i := 0; i < len(s); i++ {
+		if s[i] == '\\' && i+3 < len(s) && s[i+1] == 'x' {
+			h := func(c byte) byte {
+				if c >= 'a' {
+					return c - 'a' + 10
+				}
+				return c - '0'
+			}
+			out = append(out, h(s[i+2])<<4|h(s[i+3]))
+			i += 3
+			continue
+		}
+		out = append(out, s[i])
+	}
+	return out
+}
+
+func vpH_C04_fixed_contents() {
+	typ := vpC04Skeletons[vpChoice(len(vpC04Skeletons)-1)]
+	term := vpDecoderTerms[vpChoice(len(vpDecoderTerms))]
+	content := vpC04Unhex(vpC04FixedContents[vpChoice(len(vpC04FixedContents))])
+	var doc []byte
+	if term == "type" {
+		doc = append(append([]byte(`{"id":"https://h.ex/i","type":"`), content...), `"}`...)
+	} else {
+		doc = append(append([]byte(`{"id":"https://h.ex/i","type":"`+typ+`","`+term+`":"`), content...), `"}`...)
+	}
+	cell := typ + "/" + term
+	var it Item
+	var err error
+	p := vpMayPanic(func() { it, err = UnmarshalJSON(doc) })
+	vpAssert("fixed-contents/no-panic/"+cell, !p)
+	if !p && err == nil {
+		vpC04FollowUp("fixed-contents/"+cell, it)
+	}
+	vpReach("end")
+}
+
 func vpH_C04_strhole1()          { vpC04StrHole(1, false) }
 func vpT_C04_strhole2_duration() { vpC04StrHoleT(2, true, 1) }
 func vpT_C04_strhole2_instants() { vpC04StrHole(2, true) }
